@@ -245,3 +245,604 @@ func exhaustiveRules(r *Run, rc ruleCfg, depth int) {
 
 var _ = big.NewInt
 var _ = events.ArrayTypeBit
+
+// ---------------------------------------------------------------------------------------
+// C15: the validator passes accepted events through unchanged.
+
+func init() {
+	runners["C15"] = runC15
+	runners["C11"] = runC11
+	runners["C12"] = runC12
+	runners["C13"] = runC13
+	runners["C14"] = runC14
+}
+
+func runC15(r *Run) {
+	rc := defaultRuleCfg()
+	cfg := rc.config()
+	r.each(func(idx int, rng *Rng) {
+		gc := allGenCfg()
+		g := NewGen(rng, gc)
+		evs := g.Doc()
+		if idx%5 == 4 {
+			evs, _ = mutate(rng, evs)
+		}
+		id := fmt.Sprintf("%d", idx)
+		text := EventsText(evs)
+		verdict, fwd := runRules(evs, cfg)
+		for k, v := range g.Stats {
+			r.out.Add("ev:"+k, v)
+		}
+		r.out.Case(text, len(evs) > 4)
+		r.out.Sample(text)
+		// correspondence with the model (verdict + forwarded events)
+		r.out.Line("corr", id, "RULES", []string{rc.text(), text}, verdict+" "+EventsText(fwd))
+		// property oracle: what was forwarded is exactly the accepted prefix, event by event,
+		// up to the three data-preserving rewrites the property allows
+		n := len(evs)
+		if strings.HasPrefix(verdict, "REJ@") {
+			fmt.Sscanf(verdict[4:], "%d", &n)
+		}
+		r.out.Line("prop", id, "FWD.EQ", []string{EventsText(evs[:n]), EventsText(fwd)}, "1")
+	})
+}
+
+// ---------------------------------------------------------------------------------------
+// C11: array validation ignores how the data is split.
+
+var c11Types = []events.ArrayType{events.ArrayTypeString, events.ArrayTypeResourceID, events.ArrayTypeReferenceRemote,
+	events.ArrayTypeCustomText, events.ArrayTypeCustomBinary, events.ArrayTypeMedia,
+	events.ArrayTypeBit, events.ArrayTypeUint8, events.ArrayTypeUint16, events.ArrayTypeUint32, events.ArrayTypeUint64,
+	events.ArrayTypeInt8, events.ArrayTypeInt16, events.ArrayTypeInt32, events.ArrayTypeInt64, events.ArrayTypeFloat16,
+	events.ArrayTypeFloat32, events.ArrayTypeFloat64, events.ArrayTypeUID}
+
+func beginEvent(t events.ArrayType) Event {
+	switch t {
+	case events.ArrayTypeCustomBinary, events.ArrayTypeCustomText:
+		return Event{K: "cbg", AT: t, N: 1}
+	case events.ArrayTypeMedia:
+		return Event{K: "mb", D2: []byte("a/b")}
+	}
+	return Event{K: "ab", AT: t}
+}
+
+func isTextType(t events.ArrayType) bool {
+	return t == events.ArrayTypeString || t == events.ArrayTypeResourceID || t == events.ArrayTypeCustomText
+}
+
+// splitData splits d into data events at the given cut offsets.
+func splitData(d []byte, cuts []int) []Event {
+	var out []Event
+	last := 0
+	for _, c := range cuts {
+		out = append(out, Event{K: "ad", D: d[last:c]})
+		last = c
+	}
+	out = append(out, Event{K: "ad", D: d[last:]})
+	return out
+}
+
+func runC11(r *Run) {
+	rc := defaultRuleCfg()
+	cfg := rc.config()
+	r.each(func(idx int, rng *Rng) {
+		t := c11Types[rng.Intn(len(c11Types))]
+		eb := t.ElementSize()
+		g := NewGen(rng, GenCfg{})
+		// contents per chunk
+		nchunks := 1 + rng.Small(3)
+		type chunk struct {
+			count int
+			data  []byte
+			more  bool
+		}
+		var chunks []chunk
+		for i := 0; i < nchunks; i++ {
+			var c chunk
+			c.more = i+1 < nchunks
+			if isTextType(t) || t == events.ArrayTypeReferenceRemote {
+				c.data = g.text(rng.Intn(6))
+				if rng.P(1, 3) && !c.more == false {
+					c.data = nil
+				}
+				c.count = len(c.data)
+			} else if eb == 1 {
+				c.count = rng.Intn(20)
+				c.data = rng.Bytes((c.count + 7) / 8)
+			} else {
+				c.count = rng.Intn(5)
+				c.data = rng.Bytes(c.count * eb / 8)
+			}
+			chunks = append(chunks, c)
+		}
+		// defects (half of the cases)
+		defect := "none"
+		if idx%2 == 1 {
+			ci := rng.Intn(len(chunks))
+			switch rng.Intn(7) {
+			case 0:
+				if len(chunks[ci].data) > 0 {
+					chunks[ci].data = chunks[ci].data[:len(chunks[ci].data)-1]
+					defect = "short-data"
+				}
+			case 1:
+				chunks[ci].data = append(cloneBytes(chunks[ci].data), 0x41)
+				defect = "long-data"
+			case 2:
+				chunks[len(chunks)-1].more = true
+				defect = "last-not-final"
+			case 3:
+				if len(chunks[ci].data) > 0 {
+					d := cloneBytes(chunks[ci].data)
+					d[rng.Intn(len(d))] = []byte{0xff, 0xc0, 0x80, 0xed, 0xf8}[rng.Intn(5)]
+					chunks[ci].data = d
+					defect = "bad-byte"
+				}
+			case 4:
+				// chunk boundary inside a character: move the first byte of a multi-byte char to the previous chunk
+				if ci+1 < len(chunks) && len(chunks[ci+1].data) > 1 && chunks[ci+1].data[0] >= 0xc0 {
+					chunks[ci].data = append(cloneBytes(chunks[ci].data), chunks[ci+1].data[0])
+					chunks[ci].count++
+					chunks[ci+1].data = chunks[ci+1].data[1:]
+					chunks[ci+1].count--
+					defect = "chunk-splits-char"
+				}
+			case 5:
+				// truncated character at the very end
+				chunks[ci].data = append(cloneBytes(chunks[ci].data), []byte{0xe6, 0x97}[:1+rng.Intn(2)]...)
+				chunks[ci].count = len(chunks[ci].data)
+				if !isTextType(t) {
+					chunks[ci].count = 0
+				}
+				defect = "truncated-char"
+			case 6:
+				chunks[ci].count++
+				defect = "count+1"
+			}
+		}
+		// several data splittings of the same chunking
+		verdicts := map[string]string{}
+		nsplit := 4
+		for sv := 0; sv < nsplit; sv++ {
+			evs := []Event{{K: "bd"}, {K: "v"}, beginEvent(t)}
+			for _, c := range chunks {
+				evs = append(evs, Event{K: "ac", N: uint64(c.count), B: c.more})
+				var cuts []int
+				switch sv {
+				case 0: // one data event (none when empty)
+				case 1: // one byte per event
+					for i := 1; i < len(c.data); i++ {
+						cuts = append(cuts, i)
+					}
+				default:
+					for i := 1; i < len(c.data); i++ {
+						if rng.P(1, 3) {
+							cuts = append(cuts, i)
+						}
+					}
+				}
+				if len(c.data) > 0 {
+					if sv == 3 && rng.P(1, 2) {
+						evs = append(evs, Event{K: "ad", D: []byte{}}) // zero-length data event inside the chunk
+					}
+					evs = append(evs, splitData(c.data, cuts)...)
+				}
+			}
+			evs = append(evs, Event{K: "ed"})
+			text := EventsText(evs)
+			verdict, fwd := runRules(evs, cfg)
+			acc := "REJ"
+			if verdict == "ACC" {
+				acc = "ACC"
+			}
+			verdicts[acc] = text
+			id := fmt.Sprintf("%d.%d", idx, sv)
+			r.out.Count("type:" + arrName(t))
+			r.out.Count("defect:" + defect)
+			r.out.Count("verdict:" + acc)
+			r.out.Case(text, true)
+			if sv == 2 {
+				r.out.Sample(defect + ": " + text + " => " + verdict)
+			}
+			r.out.Line("corr", id, "RULES", []string{rc.text(), text}, verdict+" "+EventsText(fwd))
+			// independent array specification (accept iff data matches the declared chunk lengths, the last
+			// chunk is final, and text chunks are valid UTF-8 ending on a character boundary)
+			r.out.Line("prop", id, "WF.REL", []string{rc.text(), text, verdict}, "1")
+		}
+		if len(verdicts) > 1 {
+			r.out.Finding("C11", "split-dependent:"+arrName(t), "the verdict depends on how chunk data is divided among data events: accepted as ["+verdicts["ACC"]+"] rejected as ["+verdicts["REJ"]+"]", verdicts["REJ"])
+		}
+	})
+}
+
+// ---------------------------------------------------------------------------------------
+// C12: duplicate map keys are rejected whatever encoding they use.
+
+// intForms: every event form able to express the integer v.
+func intForms(v *big.Int) []Event {
+	var out []Event
+	abs := new(big.Int).Abs(v)
+	if v.Sign() >= 0 && abs.IsUint64() {
+		out = append(out, Event{K: "pi", N: abs.Uint64()})
+	}
+	if v.Sign() <= 0 && abs.IsUint64() {
+		out = append(out, Event{K: "ni", N: abs.Uint64()})
+	}
+	if v.IsInt64() {
+		out = append(out, Event{K: "i", I: v.Int64()})
+	}
+	out = append(out, Event{K: "bi", Big: new(big.Int).Set(v)})
+	return out
+}
+
+func stringForms(rng *Rng, t events.ArrayType, s []byte) [][]Event {
+	forms := [][]Event{
+		{{K: "a", AT: t, N: uint64(len(s)), D: s}},
+		{{K: "s", AT: t, D: s}},
+	}
+	// chunked at a character boundary, data split anywhere
+	starts := runeStarts(s)
+	cut := starts[rng.Intn(len(starts))]
+	ch := []Event{{K: "ab", AT: t}, {K: "ac", N: uint64(cut), B: true}}
+	if cut > 0 {
+		ch = append(ch, splitData(s[:cut], nil)...)
+	}
+	ch = append(ch, Event{K: "ac", N: uint64(len(s) - cut), B: false})
+	if len(s)-cut > 0 {
+		var cuts []int
+		if len(s)-cut > 1 && rng.P(1, 2) {
+			cuts = []int{1 + rng.Intn(len(s)-cut-1)}
+		}
+		ch = append(ch, splitData(s[cut:], cuts)...)
+	}
+	forms = append(forms, ch)
+	return forms
+}
+
+type keyVal struct {
+	denote string
+	forms  [][]Event
+}
+
+func (g *Gen) c12Key(rng *Rng) keyVal {
+	switch rng.Intn(10) {
+	case 0:
+		b := rng.P(1, 2)
+		f := [][]Event{{{K: "b", B: b}}}
+		if b {
+			f = append(f, []Event{{K: "t"}})
+		} else {
+			f = append(f, []Event{{K: "f"}})
+		}
+		return keyVal{"bool:" + b01(b), f}
+	case 1:
+		u := rng.Bytes(16)
+		if rng.P(1, 2) {
+			u = make([]byte, 16)
+			u[15] = byte(rng.Intn(3))
+		}
+		return keyVal{"uid:" + hx(u), [][]Event{{{K: "uid", D: u}}}}
+	case 2:
+		s := g.text(1 + rng.Intn(4))
+		return keyVal{"rid:" + string(s), stringForms(rng, events.ArrayTypeResourceID, s)}
+	case 3, 4:
+		s := g.text(rng.Intn(4))
+		if rng.P(1, 2) {
+			s = []byte([]string{"", "a", "b", "ab", "é"}[rng.Intn(5)])
+		}
+		return keyVal{"str:" + string(s), stringForms(rng, events.ArrayTypeString, s)}
+	case 5:
+		t := g.time()
+		return keyVal{"tm:" + timeText(t), [][]Event{{{K: "tm", T: t}}}}
+	default:
+		var v *big.Int
+		switch rng.Intn(4) {
+		case 0:
+			v = big.NewInt(int64(rng.Intn(7)) - 3)
+		case 1:
+			v = new(big.Int).SetUint64(g.magnitude())
+		case 2:
+			v = new(big.Int).SetUint64([]uint64{1 << 63, 1<<63 - 1, 1<<63 + 1, 1<<64 - 1, 5, 100, 101}[rng.Intn(7)])
+		default:
+			v = new(big.Int).Lsh(big.NewInt(1), 64)
+			v.Add(v, big.NewInt(int64(rng.Intn(3))))
+		}
+		if rng.P(1, 2) {
+			v.Neg(v)
+		}
+		var f [][]Event
+		for _, e := range intForms(v) {
+			f = append(f, []Event{e})
+		}
+		return keyVal{"int:" + v.String(), f}
+	}
+}
+
+func runC12(r *Run) {
+	rc := defaultRuleCfg()
+	cfg := rc.config()
+	r.each(func(idx int, rng *Rng) {
+		g := NewGen(rng, GenCfg{})
+		n := 2 + rng.Intn(4)
+		var keys []keyVal
+		for i := 0; i < n; i++ {
+			if i > 0 && rng.P(1, 3) {
+				keys = append(keys, keys[rng.Intn(len(keys))]) // deliberate collision, possibly in another form
+			} else {
+				keys = append(keys, g.c12Key(rng))
+			}
+		}
+		inRecordType := idx%4 == 3
+		var evs []Event
+		evs = append(evs, Event{K: "bd"}, Event{K: "v"})
+		if inRecordType {
+			evs = append(evs, Event{K: "rt", D: []byte("r")})
+		} else {
+			evs = append(evs, Event{K: "m"})
+		}
+		seen := map[string]bool{}
+		dupAt := -1
+		var denotes []string
+		for i, k := range keys {
+			form := k.forms[rng.Intn(len(k.forms))]
+			evs = append(evs, form...)
+			if !inRecordType {
+				evs = append(evs, Event{K: "n"})
+			}
+			if seen[k.denote] && dupAt < 0 {
+				dupAt = i
+			}
+			seen[k.denote] = true
+			denotes = append(denotes, k.denote)
+		}
+		evs = append(evs, Event{K: "end"})
+		if inRecordType {
+			evs = append(evs, Event{K: "n"})
+		}
+		evs = append(evs, Event{K: "ed"})
+		text := EventsText(evs)
+		verdict, fwd := runRules(evs, cfg)
+		id := fmt.Sprintf("%d", idx)
+		r.out.Case(text, true)
+		r.out.Sample(text + " => " + verdict)
+		if dupAt >= 0 {
+			r.out.Count("with-duplicate")
+		} else {
+			r.out.Count("no-duplicate")
+		}
+		r.out.Line("corr", id, "RULES", []string{rc.text(), text}, verdict+" "+EventsText(fwd))
+		// property oracle, decided on the Go side from the generator's own denotations
+		isDup := strings.Contains(verdict, "DUPKEY")
+		if dupAt >= 0 && !isDup {
+			r.out.Finding("C12", "duplicate-accepted:"+strings.SplitN(denotes[dupAt], ":", 2)[0], "two keys denoting "+denotes[dupAt]+" are accepted in one container: "+verdict, text)
+		}
+		if dupAt < 0 && verdict != "ACC" {
+			r.out.Finding("C12", "false-duplicate", "keys denoting different values are rejected: "+verdict, text)
+		}
+		// and by the Lean driver's independent `denote` on the event text
+		r.out.Line("prop", id, "WF.REL", []string{rc.text(), text, verdict}, "1")
+	})
+}
+
+// ---------------------------------------------------------------------------------------
+// C13: markers and local references are consistent in every accepted document.
+
+func runC13(r *Run) {
+	rc := defaultRuleCfg()
+	cfg := rc.config()
+	r.each(func(idx int, rng *Rng) {
+		gc := allGenCfg()
+		gc.MarkerHeavy = true
+		g := NewGen(rng, gc)
+		evs := g.Doc()
+		mode := "valid"
+		if idx%3 != 0 {
+			evs, mode = mutateMarkers(rng, evs)
+		}
+		id := fmt.Sprintf("%d", idx)
+		text := EventsText(evs)
+		verdict, fwd := runRules(evs, cfg)
+		r.out.Count("mode:" + mode)
+		r.out.Count("verdict:" + strings.SplitN(verdict, "@", 2)[0])
+		r.out.Add("markers", g.Stats["mk"])
+		r.out.Add("refs", g.Stats["ref"])
+		r.out.Case(text, g.Stats["mk"]+g.Stats["ref"] > 0)
+		r.out.Sample(mode + ": " + text + " => " + verdict)
+		if mode == "valid" && verdict != "ACC" {
+			r.out.Finding("C13", "valid-rejected:"+verdict[strings.Index(verdict, ":")+1:], "a consistent marker/reference document is rejected: "+verdict, text)
+		}
+		r.out.Line("corr", id, "RULES", []string{rc.text(), text}, verdict+" "+EventsText(fwd))
+		r.out.Line("prop", id, "WF.REL", []string{rc.text(), text, verdict}, "1")
+	})
+}
+
+// mutateMarkers: unknown / duplicate / type-mismatched identifiers, markers on markers etc.
+func mutateMarkers(rng *Rng, evs []Event) ([]Event, string) {
+	out := make([]Event, len(evs))
+	copy(out, evs)
+	var mks, refs []int
+	for i, e := range out {
+		if e.K == "mk" {
+			mks = append(mks, i)
+		}
+		if e.K == "ref" {
+			refs = append(refs, i)
+		}
+	}
+	switch rng.Intn(8) {
+	case 0:
+		if len(refs) > 0 {
+			i := refs[rng.Intn(len(refs))]
+			out[i].D = []byte("nosuchmarker")
+			return out, "unknown-ref"
+		}
+	case 1:
+		if len(mks) > 1 {
+			i, j := mks[rng.Intn(len(mks))], mks[rng.Intn(len(mks))]
+			out[i].D = out[j].D
+			return out, "duplicate-marker"
+		}
+	case 2:
+		if len(mks) > 0 {
+			i := mks[rng.Intn(len(mks))]
+			ins := append([]Event{}, out[:i]...)
+			ins = append(ins, Event{K: "mk", D: []byte("mm")})
+			return append(ins, out[i:]...), "marker-on-marker"
+		}
+	case 3:
+		if len(refs) > 0 {
+			i := refs[rng.Intn(len(refs))]
+			ins := append([]Event{}, out[:i]...)
+			ins = append(ins, Event{K: "mk", D: []byte("mr")})
+			return append(ins, out[i:]...), "marker-on-ref"
+		}
+	case 4:
+		if len(mks) > 0 {
+			i := mks[rng.Intn(len(mks))]
+			out[i].D = [][]byte{{}, []byte("a b"), []byte("a:b"), []byte("\xff"), []byte(strings.Repeat("x", 1001))}[rng.Intn(5)]
+			return out, "bad-id"
+		}
+	case 5:
+		if len(mks) > 0 {
+			// delete a marker that may be referenced
+			i := mks[rng.Intn(len(mks))]
+			return append(out[:i], out[i+1:]...), "delete-marker"
+		}
+	case 6:
+		// a key-position reference to a non-keyable object: map { &x:[...]  then $x: null }
+		for i, e := range out {
+			if e.K == "m" {
+				ins := append([]Event{}, out[:i+1]...)
+				ins = append(ins, Event{K: "s", AT: events.ArrayTypeString, D: []byte("k0")}, Event{K: "mk", D: []byte("nk")}, Event{K: "l"}, Event{K: "end"},
+					Event{K: "ref", D: []byte("nk")}, Event{K: "n"})
+				return append(ins, out[i+1:]...), "key-ref-nonkeyable"
+			}
+		}
+	}
+	return mutate(rng, out)
+}
+
+// ---------------------------------------------------------------------------------------
+// C14: configured resource limits are enforced exactly (validator part).
+
+func runC14(r *Run) {
+	r.each(func(idx int, rng *Rng) {
+		gc := allGenCfg()
+		gc.Budget = 15
+		g := NewGen(rng, gc)
+		evs := g.Doc()
+		text := EventsText(evs)
+		u := measure(evs)
+		base := ruleCfg{1000, 1000000, 1 << 30, 1000, 10000}
+		r.out.Case(text, len(evs) > 4)
+		r.out.Sample(fmt.Sprintf("usage depth=%d objects=%d array=%d id=%d markers=%d: %s", u.depth, u.objects, u.array, u.id, u.markers, text))
+		r.out.Line("prop", fmt.Sprintf("%d.m", idx), "MEASURE", []string{text}, fmt.Sprintf("%d,%d,%d,%d,%d", u.depth, u.objects, u.array, u.id, u.markers))
+		try := func(name string, rc ruleCfg, usage, limit uint64, zeroMeansNone bool) {
+			cfg := rc.config()
+			verdict, fwd := runRules(evs, cfg)
+			id := fmt.Sprintf("%d.%s.%d", idx, name, limit)
+			r.out.Line("corr", id, "RULES", []string{rc.text(), text}, verdict+" "+EventsText(fwd))
+			over := usage > limit && !(zeroMeansNone && limit == 0)
+			r.out.Count("limit:" + name)
+			if over && verdict == "ACC" {
+				r.out.Finding("C14", "over-limit-accepted:"+name, fmt.Sprintf("usage %d exceeds %s limit %d but the document is accepted", usage, name, limit), rc.text()+" "+text)
+			}
+			if !over && verdict != "ACC" {
+				r.out.Finding("C14", "within-limit-rejected:"+name, fmt.Sprintf("usage %d is within %s limit %d but the document is rejected: %s", usage, name, limit, verdict), rc.text()+" "+text)
+			}
+			if over && !strings.Contains(verdict, "LIMIT:") {
+				r.out.Count("over-limit-rejected-with-other-class")
+			}
+		}
+		for _, d := range []int64{-1, 0, 1} {
+			lim := func(u uint64) uint64 {
+				v := int64(u) + d
+				if v < 0 {
+					v = 0
+				}
+				return uint64(v)
+			}
+			c := base
+			c.depth = lim(u.depth)
+			try("depth", c, u.depth, c.depth, false)
+			c = base
+			c.objects = lim(u.objects)
+			try("objects", c, u.objects, c.objects, false)
+			c = base
+			c.array = lim(u.array)
+			if c.array > 0 {
+				try("array", c, u.array, c.array, true)
+			}
+			c = base
+			c.id = lim(u.id)
+			if u.id > 0 {
+				try("id", c, u.id, c.id, false)
+			}
+			c = base
+			c.refs = lim(u.markers)
+			try("markers", c, u.markers, c.refs, false)
+		}
+	})
+}
+
+type usage struct{ depth, objects, array, id, markers uint64 }
+
+// measure: structural usage of a valid stream, computed independently of the validator:
+// depth = deepest nesting of list/map/record/record type/edge/node; objects = every value, key,
+// container, marker, reference and record type; array = largest array in bytes (declared
+// chunk totals for chunked ones); id = longest identifier; markers = number of markers.
+func measure(evs []Event) usage {
+	var u usage
+	var depth uint64
+	var arr uint64
+	inArr := false
+	elemBits := 8
+	for _, e := range evs {
+		switch e.K {
+		case "l", "m", "e", "nd", "r", "rt":
+			depth++
+			if depth > u.depth {
+				u.depth = depth
+			}
+			u.objects++
+		case "end":
+			depth--
+		case "bd", "ed", "v", "pad", "cm", "ad":
+		case "ac":
+			if elemBits == 1 {
+				arr += (e.N + 7) / 8
+			} else {
+				arr += e.N * uint64(elemBits/8)
+			}
+			if arr > u.array {
+				u.array = arr
+			}
+		case "ab", "mb", "cbg":
+			u.objects++
+			arr = 0
+			inArr = true
+			elemBits = 8
+			if e.K == "ab" {
+				elemBits = e.AT.ElementSize()
+			}
+		default:
+			u.objects++
+		}
+		switch e.K {
+		case "a", "s", "md", "cb", "ct":
+			if uint64(len(e.D)) > u.array {
+				u.array = uint64(len(e.D))
+			}
+		case "mk":
+			u.markers++
+		}
+		switch e.K {
+		case "mk", "ref", "r", "rt":
+			if uint64(len(e.D)) > u.id {
+				u.id = uint64(len(e.D))
+			}
+		}
+	}
+	_ = inArr
+	return u
+}
